@@ -20,6 +20,7 @@ EXPLANATION = (
     "fault sequences or schedules."
     ' Also evaluated here: the solver-reply reader of C11 R11.3 (a truncated reply must not yield a core).'
     ' Round 4: also serialisation completeness (C11 R11.1), the per-path classification (C03 R03.1), the timeout-to-unknown mapping (C17 R17.1/R17.2) and R04.6 (results during shutdown).'
+    ' Round 5: the solver callback records its output first and unconditionally (R05.7); the verdict word is the complete first line of the reply (R05.3); what `stuck` means (C10 R10.1).'
 )
 ASSUMPTIONS = [
     "CPython list.append is atomic under the GIL",
